@@ -68,7 +68,12 @@ pub struct Ctx {
 
 impl Ctx {
     pub fn is_known(&self, prop: &str, signature: &str) -> bool {
-        self.known.iter().any(|k| k.property == prop && k.status == "known" && signature.starts_with(&k.signature))
+        // findings of the shared relying-party / payload oracle (listed under
+        // C01) are the same findings when another property's check meets them
+        let shared = ["rp-", "vrps:", "aspas:", "router-keys:"].iter().any(|p| signature.starts_with(p));
+        self.known
+            .iter()
+            .any(|k| (k.property == prop || (shared && k.property == "C01")) && k.status == "known" && signature.starts_with(&k.signature))
     }
 }
 
